@@ -406,7 +406,9 @@ class C02(LockCheck):
     theorems = ['CppUtil.Props.c02_blocked_lock_pess', 'CppUtil.Props.c02_blocked_lock_opt',
                 'CppUtil.Props.c02_blocked_upgrade_pess', 'CppUtil.Props.c02_blocked_upgrade_opt',
                 'CppUtil.Props.c02_blocked_reader_opt', 'CppUtil.Props.c02_solo_acquire',
-                'CppUtil.Props.c02_quiescent_free_pess', 'CppUtil.Props.c02_quiescent_free_opt']
+                'CppUtil.Props.c02_quiescent_free_pess', 'CppUtil.Props.c02_quiescent_free_opt',
+                'CppUtil.Props.c02_mcs_blocked_xSpin', 'CppUtil.Props.c02_mcs_front_passes',
+                'CppUtil.Props.c02_mcs_blocked_sSpinLock', 'CppUtil.Props.c02_mcs_blocked_drain']
     extra_modules = ['CppUtil.Props.McsBits']
     categories = []
     stuck_relevant = True
